@@ -215,8 +215,8 @@ fn sequences(maxlen: usize) -> Vec<Vec<Op>> {
             return;
         }
         for e in a {
-            // two waits in a row add nothing the first did not show
-            if *e == Op::Wait && cur.last() == Some(&Op::Wait) {
+            // a second wait in a row checks that the retry is repeated; a third adds nothing
+            if *e == Op::Wait && cur.len() >= 2 && cur[cur.len() - 1] == Op::Wait && cur[cur.len() - 2] == Op::Wait {
                 continue;
             }
             cur.push(*e);
